@@ -49,7 +49,10 @@ type Ctx struct {
 	replay  *CaseInfo
 }
 
-type group struct{ Name, Ctype, Judge string }
+type group struct {
+	Name, Ctype, Judge string
+	Shard             int
+}
 
 // group starts (or resumes) a group of cases judged by the Coq function [judge] over [ctype].
 func (c *Ctx) group(name, ctype, judge string) {
@@ -59,9 +62,12 @@ func (c *Ctx) group(name, ctype, judge string) {
 			return
 		}
 	}
-	c.groups = append(c.groups, group{name, ctype, judge})
+	c.groups = append(c.groups, group{name, ctype, judge, shardSize})
 	c.cur = len(c.groups) - 1
 }
+
+// shard sets the number of cases per generated Coq file for the current group (heavy cases: fewer).
+func (c *Ctx) shard(n int) { c.groups[c.cur].Shard = n }
 
 func (c *Ctx) count(key string) { c.stats[key]++ }
 
@@ -96,8 +102,8 @@ func (c *Ctx) flush() error {
 				idx = append(idx, i)
 			}
 		}
-		for start := 0; start < len(idx); start += shardSize {
-			end := start + shardSize
+		for start := 0; start < len(idx); start += g.Shard {
+			end := start + g.Shard
 			if end > len(idx) {
 				end = len(idx)
 			}
